@@ -457,7 +457,7 @@ func writeReplay(path string, cfg PropConfig, f failure, repo, verif, tier strin
 		found = true
 	}
 	if cfg.Harness != nil {
-		hr := runHarness(*cfg.Harness, repo, verif, tier, 0, f.name())
+		hr := witnessSearch(*cfg.Harness, repo, verif, tier, f.name())
 		rec["witness_search"] = map[string]interface{}{"harness": cfg.Harness.File, "bound": hr.bound, "cases": hr.cases, "failing_inputs": hr.fails, "error": hr.err}
 		if len(hr.fails) > 0 {
 			found = true
@@ -468,6 +468,24 @@ func writeReplay(path string, cfg PropConfig, f failure, repo, verif, tier strin
 	js, _ := json.MarshalIndent(rec, "", " ")
 	os.WriteFile(path, js, 0o644)
 	return found
+}
+
+// witnessSearch runs the stand-in that doubles as witness search. Its result does not depend on the failed obligation
+// unless the harness reads VERIF_OBLIGATION (only the C15 harness does), so it is run once per check, not once per
+// failed obligation: a change that fails 60 obligations used to cost 60 runs of the same test.
+var witnessMemo = map[string]harnessResult{}
+
+func witnessSearch(h Harness, repo, verif, tier, obligation string) harnessResult {
+	key := h.File + "|" + h.Run + "|" + tier
+	if src, err := os.ReadFile(filepath.Join(verif, "replay", h.File)); err == nil && strings.Contains(string(src), "VERIF_OBLIGATION") {
+		key += "|" + obligation
+	}
+	if r, ok := witnessMemo[key]; ok {
+		return r
+	}
+	r := runHarness(h, repo, verif, tier, 0, obligation)
+	witnessMemo[key] = r
+	return r
 }
 
 type harnessResult struct {
